@@ -130,8 +130,9 @@ def _eb_engine(thorough_only=False):
 
 for _p in ('C01', 'C04', 'C06', 'C15', 'C18', 'C11'):
     PROPS[_p]['eb'] = [_eb_engine()]
-for _p in ('C05', 'C07', 'C08', 'C09'):
+for _p in ('C05', 'C07', 'C08'):
     PROPS[_p]['eb'] = [_eb_engine(thorough_only=True)]
+PROPS['C09']['eb'] = [_eb_engine()]
 PROPS['C10']['eb'] = [_eb_engine(), EB_SORT]
 PROPS['C12']['eb'] = [EB_CLIENT]
 PROPS['C19']['eb'] = [dict(EB_CLIENT, name='client-backoff', filters=['client::client_new', 'client::client_backoff'], tests=['client_new_initial_period_normalized', 'client_backoff_resets_only_after_stable_connection'])]
@@ -171,5 +172,9 @@ EB_FIXED = _findings_group(['engine_fixed_findings_stay_fixed'])
 EB_FIXED = dict(EB_FIXED, name='fixed-findings', filters=['findings::engine_fixed'])
 PROPS['C11']['eb'].append(EB_FIXED)
 
-EB_SVCTIME = {'name': 'service-time', 'crate': 'gneiss-mqtt', 'module_dir': 'gneiss_mqtt', 'filters': ['engine::service_time'], 'tests': ['service_time_contract_never_strands_work'], 'timeout': 3000}
+EB_SVCTIME = {'name': 'service-time', 'crate': 'gneiss-mqtt', 'module_dir': 'gneiss_mqtt', 'filters': ['engine::service_time'], 'tests': ['service_time_contract_never_strands_work', 'service_time_covers_every_armed_deadline'], 'timeout': 3000}
 PROPS['C08']['eb'] = [EB_SVCTIME] + PROPS['C08'].get('eb', [])
+
+EB_LIMITS = {'name': 'limits', 'crate': 'gneiss-mqtt', 'module_dir': 'gneiss_mqtt', 'filters': ['limits::'], 'tests': ['server_limits_hold_on_the_wire_with_aliases'], 'timeout': 3000}
+PROPS['C16']['eb'].append(EB_LIMITS)
+PROPS['C17']['eb'].append(EB_LIMITS)
